@@ -76,3 +76,30 @@ def genome(draw, n, alphabet="NT_STRICT", mixed_case=False):
 
 def dna(n_min, n_max):
     return st.text(alphabet="ACGT", min_size=n_min, max_size=n_max)
+
+
+# ------------------------------------------------------------------------------------------------
+# coding intervals
+
+
+@st.composite
+def cds_spec(draw, max_k=5, frameshift_prob=4, ambiguous_prob=6, max_len=10, pad=4):
+    """CDS layout (1..k blocks, 0-bp gaps allowed) x strand x start offset, frames of one reading frame
+    (refmodel.frames_from_offset) optionally with one entry perturbed (programmed frameshift), genome."""
+    from harness import refmodel as rm
+
+    blocks = draw(layout(max_k=max_k, allow_empty=False, allow_adjacent=True, allow_overlap=False, max_len=max_len, max_gap=5))
+    strand = draw(st.sampled_from(["+", "-"]))
+    offset = draw(st.sampled_from([0, 0, 1, 2]))
+    frames = rm.frames_from_offset(blocks, strand, offset)
+    shifted = False
+    if len(blocks) > 1 and draw(st.integers(0, frameshift_prob - 1)) == 0:
+        i = draw(st.integers(0, len(blocks) - 1))
+        frames[i] = (frames[i] + draw(st.sampled_from([1, 2]))) % 3
+        shifted = True
+    n = blocks[-1][1] + draw(st.integers(0, pad))
+    alphabet = "ACGT"
+    if draw(st.integers(0, ambiguous_prob - 1)) == 0:
+        alphabet = "ACGTNRY"
+    g = "".join(draw(st.lists(st.sampled_from(alphabet), min_size=n, max_size=n)))
+    return {"blocks": blocks, "strand": strand, "offset": offset, "frames": frames, "frameshift": shifted, "genome": g}
